@@ -57,7 +57,10 @@ def corrupt(data, rng):
         # pathological metadata: very deep nesting
         m = re.search(rb'^#\.*meta:[^\n]*length=(\d+)[^\n]*\n', data, re.M)
         if m:
-            deep = b'[' * rng.choice([1500, 5000]) + b'\n'
+            depth = rng.choice([700, 900])
+            deep = rng.choice([b'[' * rng.choice([1500, 5000]) + b'\n',
+                               b'{"k": ' + b'[' * depth + b']' * depth + b'}\n',        # VALID, but deep
+                               b'{"k": ' + b'{"a": ' * depth + b'1' + b'}' * depth + b'}\n'])
             return data[:m.start(1)] + str(len(deep)).encode() + data[m.end(1):m.end()] + deep + data[m.end() + int(m.group(1)):]
     if r < 0.50:
         i = rng.randrange(len(data))
